@@ -43,6 +43,7 @@ def run(prog, res):
   _project_steps(prog, res)
   _partial_order(prog, res)
   _toposort(prog, res)
+  _toposort_visits(prog, res)
   _orientation(prog, res)
   _scaling(prog, res)
   _divisor_guard(prog, res)
@@ -677,6 +678,62 @@ def _toposort(prog, res):
             'result is finish order (successors first), the reverse of a '
             'topological order' % (kind, 'reversed' if reversed_ret else
                                    'as is'))
+
+
+def _toposort_visits(prog, res):
+  """O2 (visit discipline): in the explicit-stack DFS a vertex may only be
+  marked visited when it is on top of the stack and is being expanded, and
+  only one unvisited successor is pushed at a time.  Marking successors when
+  they are PUSHED (or starting with the roots already marked) lets a vertex
+  that is reachable on two paths finish before one of its successors: the
+  emitted order is then not topological although every vertex is still
+  emitted exactly once on finishing."""
+  fn = prog.function(IU + '._topological_sort')
+  key = fn.qualname
+  loop = [n for n in fn.node.body if isinstance(n, ast.While)][0]
+  stack = dotted(loop.test)
+  top = seen = expand = None
+  for st in ast.walk(loop):
+    if isinstance(st, ast.Assign) and isinstance(st.value, ast.Subscript) \
+        and dotted(st.value.value) == stack and const_value(
+            st.value.slice, None) == -1:
+      top = dotted(st.targets[0])
+    if isinstance(st, ast.Assign) and isinstance(st.value, ast.ListComp):
+      for c in st.value.generators[0].ifs:
+        if isinstance(c, ast.Compare) and isinstance(c.ops[0], ast.NotIn):
+          seen = dotted(c.comparators[0])
+          expand = dotted(st.targets[0])
+  if top is None or seen is None:
+    raise AnalysisError('%s: top of stack / visited set not found' % key)
+  bad = []
+  for st in ast.walk(fn.node):
+    if isinstance(st, ast.Assign) and dotted(st.targets[0]) == seen:
+      v = st.value
+      empty = isinstance(v, ast.Call) and dotted(v.func) == 'set' and not \
+          v.args
+      if not empty:
+        bad.append('the visited set starts as `%s`' % norm_text(v)[:40])
+    if isinstance(st, ast.Call) and isinstance(st.func, ast.Attribute) and \
+        dotted(st.func.value) == seen and st.func.attr in (
+            'add', 'update', 'union'):
+      if not (st.func.attr == 'add' and len(st.args) == 1 and dotted(
+          st.args[0]) == top):
+        bad.append('`%s` marks vertices other than the one being expanded' %
+                   norm_text(st)[:50])
+    if isinstance(st, ast.Call) and isinstance(st.func, ast.Attribute) and \
+        dotted(st.func.value) == stack and st.func.attr in ('extend',
+                                                             'append'):
+      a = st.args[0] if st.args else None
+      one = st.func.attr == 'append' and isinstance(a, ast.Subscript) and \
+          dotted(a.value) == expand
+      if not one:
+        bad.append('`%s` pushes more than one unvisited successor' %
+                   norm_text(st)[:50])
+  res.check(not bad, 'O2', key + '|visit-discipline', fn.loc(loop),
+            'vertices are marked visited when expanded (on top of the stack) '
+            'and successors are pushed one at a time',
+            '; '.join(bad) + ': a vertex reachable on two paths can finish '
+            'before one of its successors, the order is not topological')
 
 
 def _divisor_guard(prog, res):
